@@ -116,6 +116,21 @@ pub assume_specification<T>[Option::<T>::or](r: Option<T>, d: Option<T>) -> (res
 
 pub assume_specification<T>[<Box<T> as From<T>>::from](t: T) -> (r: Box<T>) ensures *r == t;
 // string byte lengths and byte-range slicing (std; a range that is out of bounds or not on a char boundary PANICS)
-pub uninterp spec fn str_byte_len(s: Seq<char>) -> nat;
+/// UTF-8 length of a code point / of a string (definition of the encoding; `String::len` is ASSUMED to return it)
+pub open spec fn utf8_len(c: char) -> nat { if (c as u32) < 0x80 { 1 } else if (c as u32) < 0x800 { 2 } else if (c as u32) < 0x10000 { 3 } else { 4 } }
+pub open spec fn str_byte_len(s: Seq<char>) -> nat
+    decreases s.len()
+{ if s.len() == 0 { 0 } else { str_byte_len(s.drop_last()) + utf8_len(s.last()) } }
+pub proof fn lemma_str_byte_len_concat(a: Seq<char>, b: Seq<char>)
+    ensures str_byte_len(a + b) == str_byte_len(a) + str_byte_len(b)
+    decreases b.len()
+{
+    if b.len() == 0 { assert(a + b =~= a); }
+    else {
+        assert((a + b).drop_last() =~= a + b.drop_last());
+        assert((a + b).last() == b.last());
+        lemma_str_byte_len_concat(a, b.drop_last());
+    }
+}
 pub uninterp spec fn is_char_boundary(s: Seq<char>, i: int) -> bool;
 pub assume_specification[String::len](s: &String) -> (r: usize) ensures r == str_byte_len(s@);
